@@ -4,6 +4,7 @@
 package vfhook
 
 import (
+	"crypto/tls"
 	"crypto/x509"
 	"net"
 	"net/url"
@@ -22,8 +23,8 @@ func Yield(label string) {
 }
 
 var (
-	CheckLDAPUserPassword func(u url.URL, bindDN string, bindPassword string, timeoutSecs uint, rootCAs *x509.CertPool) (bool, error)
-	CheckLDAPConnection   func(u url.URL, timeoutSecs uint, rootCAs *x509.CertPool) error
+	// LDAPDialFn, when set, stands for the TLS dial of lib/authutil (getLDAPConnection)
+	LDAPDialFn func(d *net.Dialer, network, addr string, cfg *tls.Config) (net.Conn, error)
 	GetLDAPUserGroups     func(u url.URL, bindDN string, bindPassword string,
 		timeoutSecs uint, rootCAs *x509.CertPool,
 		username string,
@@ -99,4 +100,16 @@ func ClientDialTimeout(network, addr string, d time.Duration) (net.Conn, error) 
 		return ClientDialFn(network, addr)
 	}
 	return net.DialTimeout(network, addr, d)
+}
+
+// LDAPDial stands where lib/authutil calls tls.DialWithDialer.
+func LDAPDial(d *net.Dialer, network, addr string, cfg *tls.Config) (net.Conn, error) {
+	if LDAPDialFn != nil {
+		return LDAPDialFn(d, network, addr, cfg)
+	}
+	c, err := tls.DialWithDialer(d, network, addr, cfg)
+	if err != nil {
+		return nil, err
+	}
+	return c, nil
 }
